@@ -1,0 +1,46 @@
+//go:build verif
+
+// Contracts for package mdns (comment-only; see /verif/DESIGN.md).
+// This file contains no declarations: with and without the `verif` tag the compiled code is identical.
+package mdns
+
+// ---- library contracts (assumed) ----
+//@ lib strings.Split(s, sep)
+//@   ensures result != nil && len(result) >= 1
+//@ lib strconv.ParseUint(s, base, bitSize)
+//@ lib net.ParseIP(s)
+//@ lib (ip net.IP).To4() pure
+//@ lib (ip net.IP).IsLinkLocalUnicast() pure
+//@ lib (ip net.IP).IsUnspecified() pure
+//@ lib (ip net.IP).String() pure
+//@ iface avahi.ServerInterface.ResolveService(iface, protocol, name, serviceType, domain, aprotocol, flags)
+
+// the resolver callback installed by the manager (MdnsManager.processMdnsEntry)
+//@ functype api.MdnsResolveCB(elements, name, host, addresses, port, remove)
+//@   modifies *
+//@ iface api.MdnsReportInterface.ReportMdnsEntries(entries, newEntries)
+//@   modifies *
+
+// every known entry is a real entry (C08: no nil dereference while merging addresses)
+//@ objinv (m *MdnsManager) M1-entries: m.entries != nil && (forall k: string :: k in m.entries ==> m.entries[k] != nil)
+
+//@ func (m *MdnsManager).mdnsEntry(ski) inline
+//@ func (m *MdnsManager).setMdnsEntry(ski, entry) inline
+//@ func (m *MdnsManager).removeMdnsEntry(ski) inline
+
+//@ func parseTxt(txt) [C08,C16]
+//@   ensures result != nil
+//@ func (m *MdnsManager).copyMdnsEntries() [C08]
+//@   requires forall k: string :: k in m.entries ==> m.entries[k] != nil
+//@   modifies $decoded
+//@ func (m *MdnsManager).processMdnsEntry(elements, name, host, addresses, port, remove) entry [C08,C17]
+//@   modifies *
+//@ func (a *AvahiProvider).processService(service, remove, cb) [C08]
+//@   requires a.avServer != nil && cb != nil && a.serviceElements != nil
+//@   modifies *
+//@ func (a *AvahiProvider).processRemovedService(service, cb) [C08]
+//@   requires cb != nil
+//@   modifies *
+//@ func (a *AvahiProvider).processAddedService(service, cb) [C08]
+//@   requires cb != nil && a.serviceElements != nil
+//@   modifies *
